@@ -1,3 +1,4 @@
 import BufProofs.Props.C13
 import BufProofs.Props.C14
 import BufProofs.Props.C15
+import BufProofs.Props.C19
